@@ -128,6 +128,34 @@ Proof.
   - apply NoDup_app_r in ND. apply (NoDup_app_disjoint B C (field_name (mkey m s))); [exact ND | apply HB; assumption | rewrite <- E; apply HC; assumption].
 Qed.
 
+(** selections of different kinds are never stored under the same key *)
+Lemma kinds_disjoint m all s1 s2 :
+  members_distinct m all = true -> In s1 all -> In s2 all -> mkey m s1 = mkey m s2 -> mkind s1 <> mkind s2 -> False.
+Proof.
+  unfold members_distinct. intros ND H1 H2 E NK. apply nodupb_NoDup in ND.
+  unfold member_keys in ND. rewrite !map_app in ND.
+  set (A := map field_name (map fst (direct_fields all))) in *.
+  set (B := map field_name (dedup (flat_map (fun s0 => match s0 with SInline c _ => [inline_cond m c] | _ => [] end) all))) in *.
+  set (C := map field_name (dedup (flat_map (fun s0 => match s0 with SSpread n _ _ => [n] | _ => [] end) all))) in *.
+  assert (HA : forall x, In x all -> mkind x = KField -> In (field_name (mkey m x)) A).
+  { intros x Hx Hk. destruct x as [a f sub| |]; try discriminate. unfold A. apply in_map. apply in_map_iff.
+    exists (sel_key a f, f). split; [reflexivity|]. unfold direct_fields. apply in_flat_map.
+    exists (SField a f sub). split; [exact Hx | left; reflexivity]. }
+  assert (HB : forall x, In x all -> mkind x = KInline -> In (field_name (mkey m x)) B).
+  { intros x Hx Hk. destruct x as [|c sub|]; try discriminate. unfold B. apply in_map. apply In_dedup.
+    apply in_flat_map. exists (SInline c sub). split; [exact Hx | left; reflexivity]. }
+  assert (HC : forall x, In x all -> mkind x = KSpread -> In (field_name (mkey m x)) C).
+  { intros x Hx Hk. destruct x as [| |f c body]; try discriminate. unfold C. apply in_map. apply In_dedup.
+    apply in_flat_map. exists (SSpread f c body). split; [exact Hx | left; reflexivity]. }
+  destruct (mkind s1) eqn:K1, (mkind s2) eqn:K2; try (apply NK; reflexivity).
+  - apply (NoDup_app_disjoint A (B ++ C) (field_name (mkey m s2))); [exact ND | rewrite <- E; apply HA; assumption | apply in_app_iff; left; apply HB; assumption].
+  - apply (NoDup_app_disjoint A (B ++ C) (field_name (mkey m s2))); [exact ND | rewrite <- E; apply HA; assumption | apply in_app_iff; right; apply HC; assumption].
+  - apply (NoDup_app_disjoint A (B ++ C) (field_name (mkey m s2))); [exact ND | apply HA; assumption | apply in_app_iff; left; rewrite <- E; apply HB; assumption].
+  - apply NoDup_app_r in ND. apply (NoDup_app_disjoint B C (field_name (mkey m s2))); [exact ND | rewrite <- E; apply HB; assumption | apply HC; assumption].
+  - apply (NoDup_app_disjoint A (B ++ C) (field_name (mkey m s2))); [exact ND | apply HA; assumption | apply in_app_iff; right; rewrite <- E; apply HC; assumption].
+  - apply NoDup_app_r in ND. apply (NoDup_app_disjoint B C (field_name (mkey m s2))); [exact ND | apply HB; assumption | rewrite <- E; apply HC; assumption].
+Qed.
+
 (** ** the loop invariant *)
 Section LoopInv.
   Variable S : schema.
